@@ -21,3 +21,9 @@ int sweep_gen (long idx, sb_t *out, char *desc, size_t dlen);
 void sweep_calibrate (int (*size_of) (const unsigned char *, size_t));
 int sweep_calibration_export (int *v, int max);
 void sweep_calibration_import (const int *v, int n);
+/* cases with a history: text compiled just before the case (returns 0 = none); index of the case whose outcome this one must equal (-1 none);
+ * 1 = the case must start from the locals tables of a freshly booted driver */
+int sweep_prev (long idx, sb_t *out, char *desc, size_t dlen);
+long sweep_ref (long idx);
+int sweep_fresh (long idx);
+int sweep_mode (long idx);
